@@ -93,8 +93,7 @@ PROPS = {
                 "recoloured/retyped/moved) must hash differently. Non-trivial = distinct cases containing a castle, e.p., promotion, "
                 "capture-promotion or rights change (walk); every transposition pair and separation pair. evaluations = cases. "
                 "A third of the walks fork the board and operate on fork and origin alternately (both are judged after every operation: they are independent). C07/birthday: every distinct position met in 72k generated games (plus the neighbours of the final positions), hashed from scratch with one fixed table - about 140k positions per shard, capped at 400k: two different positions with one hash are reported as a C07/separation case (4e-9 for honest 64-bit keys at the cap; expected many times over for keys of 32 bits or fewer). "
-                "C07/coldstart: at the top of every shard process, before anything else has used the repository's code, 12 goroutines released together make the first use of the board package (positions, legal moves, successors, checks, a Zobrist table of a fresh seed, boards) on 8 fixed slider-heavy positions; answers are judged against the oracle. One trial per shard; no random choice (the schedule is the operating system's). C07 reports hash = hash from scratch and equal hashes across the goroutines. "
-                "C07/accepted: FENs with castling rights nobody can have (no king or rook at home); along the engine's own legal moves and take-backs the maintained hash must equal the hash from scratch of the position the board reports (no rules model involved). Odd en-passant targets are outside the domain (see DESIGN).",
+                "C07/coldstart: at the top of every shard process, before anything else has used the repository's code, 12 goroutines released together make the first use of the board package (positions, legal moves, successors, checks, a Zobrist table of a fresh seed, boards) on 8 fixed slider-heavy positions; answers are judged against the oracle. One trial per shard; no random choice (the schedule is the operating system's). C07 reports hash = hash from scratch and equal hashes across the goroutines.",
         "assumptions": COMMON_ASSUMPTIONS + ["hash inequality is judged up to the 2^-64 coincidence the property allows"],
         "level_text": "Exploration: ~16k push/pop histories x (up to 70 ops) per quick run over several table seeds compare the "
                       "incremental hash with the from-scratch hash after every operation; path independence and separation are "
